@@ -178,9 +178,9 @@ Fixpoint gamma_acc (cur : fl) (ds : list fl) : list etime :=
   | [] => []
   | d :: ds' => let nxt := fl_add cur d in us_time (py_round nxt) :: gamma_acc nxt ds'
   end.
-(* the GAMMA branch: note `self._start.time` is used WITHOUT conversion to microseconds *)
-Definition gamma_times (start : etime) (ds : list fl) : list etime :=
-  us_time (et_time start) :: gamma_acc (fl_of_Z (et_time start)) ds.
+(* the GAMMA branch; [s] = self._start.to(EventTime.Unit.US).time (since /repo eadd800) *)
+Definition gamma_times (s : Z) (ds : list fl) : list etime :=
+  us_time s :: gamma_acc (fl_of_Z s) ds.
 
 (* list.sort() of EventTimes all in microseconds: insertion sort (stable, like timsort) *)
 Fixpoint ins_us (x : etime) (l : list etime) : list etime :=
@@ -207,7 +207,8 @@ Definition get_release_times (p : policy) (completion : etime) (zd : list Z) (fd
       bind (poisson_acc (p_start p) ds) (fun rest => Ok (p_start p :: rest))))
   | GAMMA =>
       bind (gamma_args (p_coef p) (p_rate p)) (fun _ =>
-      bind (draw_array (p_n p - 1) fd) (fun ds => Ok (gamma_times (p_start p) ds)))
+      bind (draw_array (p_n p - 1) fd) (fun ds =>
+      bind (to_us (p_start p)) (fun s => Ok (gamma_times s ds))))
   | CLOSED_LOOP =>
       let num := if p_conc p <=? p_n p then p_conc p else p_n p in
       Ok (repeat (p_start p) (Z.to_nat num))
@@ -221,7 +222,7 @@ Definition get_release_times (p : policy) (completion : etime) (zd : list Z) (fd
       bind (gamma_args (p_coef p) (p_rate p)) (fun _ =>
       bind (draw_array (g - 1) fd) (fun ds =>
       bind (linspace_fl s (span + s) fixed0) (fun fixed =>
-      Ok (sort_us (gamma_times (p_start p) ds ++ map us_time fixed)))))))
+      Ok (sort_us (gamma_times s ds ++ map us_time fixed)))))))
   end.
 
 (* ------------------------------------------------------------------ *)
@@ -418,9 +419,9 @@ Fixpoint map_set (k : Z) (v : list Z) (m : adj) : adj :=         (* dict[k] = v 
   match m with [] => [(k, v)] | (k', w) :: m' => if k' =? k then (k', v) :: m' else (k', w) :: map_set k v m' end.
 
 (* flags that matter: (min_deadline, max_deadline) and the default variance *)
-Record iflags := mkIF { if_minb : Z; if_maxb : Z; if_var : Z * Z }.
+Record iflags := mkIF { if_minb : Z; if_maxb : Z; if_var : Z * Z; if_bpd : bool (* --use_branch_predicated_deadlines *) }.
 (* _flags=None: variance (0,0) unless the graph has one, bounds (0, sys.maxsize) *)
-Definition no_flags : iflags := mkIF 0 (2 ^ 63 - 1) (0, 0).
+Definition no_flags : iflags := mkIF 0 (2 ^ 63 - 1) (0, 0) false.
 
 (* the Task of every job in breadth-first order (job_to_task_mapping, keyed by job NAME) *)
 Definition build_tasks (jg : jobgraph) (release d1 : etime) (order : list Z) (next : Z)
@@ -446,6 +447,32 @@ Definition build_mapping (jg : jobgraph) (m : list (Z * task)) : result adj :=
           end)) (g_ch (jg_graph jg)) (Ok []).
 
 (* _generate_task_graph; [next] is the first unused task id; two uniform draws are consumed *)
+(* --use_branch_predicated_deadlines: the slowest strategy's runtime summed along
+   task_graph.get_longest_path(weights = runtime.time if probability > epsilon else 0)  (jobs.py:869-882);
+   the weight is the bare `.time` of the runtime, not converted to microseconds *)
+Definition task_job (jg : jobgraph) (created : list task) (n : Z) : option job :=
+  match find (fun t => t_id t =? n) created with
+  | Some t => find_job (t_job t) (jg_jobs jg)
+  | None => None
+  end.
+Definition bp_length (jg : jobgraph) (tgg : graph) (created : list task) : result etime :=
+  bind (fold_left (fun acc n => bind acc (fun ws =>
+          match task_job jg created n, find (fun t => t_id t =? n) created with
+          | Some j, Some t =>
+              if fl_ltb eps (t_prob t) then bind (slowest_runtime j) (fun r => Ok (ws ++ [(n, et_time r)]))
+              else Ok (ws ++ [(n, 0)])
+          | _, _ => Err 5
+          end)) (g_nodes tgg) (Ok [])) (fun ws =>
+  bind (g_longest_path tgg (fun n => zl_get0 n ws)) (fun path =>
+  fold_left (fun acc n => bind acc (fun t =>
+      match task_job jg created n with
+      | None => Err 5
+      | Some j => bind (slowest_runtime j) (fun r => et_add t r)
+      end)) path (Ok et_zero))).
+(* the time the graph's deadline is stretched from *)
+Definition deadline_base (jg : jobgraph) (fl_ : iflags) (tgg : graph) (created : list task) : result etime :=
+  if if_bpd fl_ then bp_length jg tgg created else completion_time jg.
+
 Definition take_draw (us_ : list fl) : result (fl * list fl) :=
   match us_ with u :: r => Ok (u, r) | [] => Err 90 end.
 Definition generate_task_graph (jg : jobgraph) (fl_ : iflags) (release : etime) (index : Z) (next : Z) (us_ : list fl)
@@ -462,7 +489,7 @@ Definition generate_task_graph (jg : jobgraph) (fl_ : iflags) (release : etime) 
   let '(m, created, nid) := st in
   bind (build_mapping jg m) (fun mapping =>
   bind (graph_of_mapping mapping) (fun tgg =>
-  bind (completion_time jg) (fun ct2 =>
+  bind (deadline_base jg fl_ tgg created) (fun ct2 =>
   bind (take_draw us1) (fun ud2 => let '(u2, us2) := ud2 in
   bind (et_add release (et_fuzz ct2 u2 (if_minb fl_) (if_maxb fl_))) (fun d2 =>
   bind (et_ltb d2 et_zero) (fun neg =>
@@ -829,7 +856,7 @@ Definition vljg (l : ljg) : val :=
 
 (* the raw flag values; WorkloadLoader.__init__ turns them into overrides *)
 Record raw_flags := mkRF { rf_rate : fl; rf_coef : fl; rf_period : Z; rf_inv : Z; rf_unique : bool; rf_repl : Z;
-                           rf_slo : Z; rf_minb : Z; rf_maxb : Z; rf_timeout : Z }.
+                           rf_slo : Z; rf_minb : Z; rf_maxb : Z; rf_timeout : Z; rf_bpd : bool }.
 Definition flags_view (o : option raw_flags) : d_flags :=
   match o with
   | None => mkDF None None None None false 1 None 0 (2 ^ 63 - 1)
@@ -849,11 +876,12 @@ Record load_case := mkLC { lc_profiles : option (list d_profile); lc_graphs : op
                            lc_zcalls : list (list Z); lc_fcalls : list (list fl); lc_us : list fl }.
 Definition lc_flags (c : load_case) : d_flags := flags_view (lc_rflags c).
 Definition lc_completion (c : load_case) : option etime := loader_horizon (lc_rflags c).
+Definition lc_bpd (c : load_case) : bool := match lc_rflags c with Some r => rf_bpd r | None => false end.
 Definition load_observe (c : load_case) : val :=
   vres (fun p => L [vlist vljg (fst p);
                     vlist (fun x => L [I (fst (fst x)); I (snd (fst x)); vtgs (snd x)]) (snd p)])
        (bind (load_workload (lc_profiles c) (lc_graphs c) (lc_flags c)) (fun ls =>
-        bind (populate ls (mkIF (df_minb (lc_flags c)) (df_maxb (lc_flags c)) (0, 0)) (lc_completion c)
+        bind (populate ls (mkIF (df_minb (lc_flags c)) (df_maxb (lc_flags c)) (0, 0) (lc_bpd c)) (lc_completion c)
                        (lc_zcalls c) (lc_fcalls c) (lc_us c) 0) (fun tgs => Ok (ls, tgs)))).
 Definition pools_observe (ps : list d_pool) : val :=
   vres (vlist (fun p => L [I (fst p); vlist (fun w => L [I (fst w); vlist vres_spec (snd w)]) (snd p)])) (load_pools ps).
